@@ -1,5 +1,6 @@
 import CirqVerif.Props.C01
 import CirqVerif.Props.C03
+import CirqVerif.Props.C04
 import CirqVerif.Props.C05
 import CirqVerif.Props.C08
 import CirqVerif.Props.C18
